@@ -326,6 +326,9 @@ fn run(args: &Args, rep: &mut Report, sb: &Path) {
                 if hist.len() >= d {
                     continue;
                 }
+                if rep.over_budget() {
+                    return;
+                }
                 for op in actions(&types, ncontent, &m) {
                     if hist.is_empty() {
                         first_level += 1;
